@@ -246,13 +246,21 @@ def canon_strings(e: ast.AST) -> ast.AST:
             out = []
             for v in x.values:
                 if isinstance(v, ast.FormattedValue) and v.conversion == -1 and v.format_spec is None:
-                    out.append(_unstr(v.value))
+                    inner = _unstr(v.value)
+                    sub = parts(inner) if isinstance(inner, (ast.JoinedStr, ast.BinOp)) and _is_strcat(inner) else None
+                    out += sub if sub is not None else [inner]  # f"{f'a{b}'}c" is f"a{b}c"
                 else:
                     out.append(v)
             return out
         if isinstance(x, ast.AST):
             return [_unstr(x)]
         return None
+
+    def _is_strcat(v) -> bool:
+        if isinstance(v, ast.JoinedStr):
+            return True
+        ps = parts(v) if isinstance(v, ast.BinOp) and isinstance(v.op, ast.Add) else None
+        return ps is not None and any(isinstance(p_, ast.Constant) and isinstance(p_.value, str) for p_ in ps)
 
     def _unstr(v):
         if isinstance(v, ast.Call) and isinstance(v.func, ast.Name) and v.func.id == "str" and len(v.args) == 1 and not v.keywords:
